@@ -89,10 +89,14 @@ def add_gens(rng, net, buses, hot, n_max=3, qlim_p=0.5, share=0.6, vm_by_bus=Non
     return vm_by_bus
 
 
-def gen_net(rng, rich=1.0, nb=None, fuse_p=0.25, two_eg_p=0.2, **kw):
+def gen_net(rng, rich=1.0, nb=None, fuse_p=0.25, two_eg_p=0.2, t3w_p=0.0, dcline_p=0.0, **kw):
     nb = nb or rng.randint(2, 7)
-    net = nets.rand_net(rng, nb=nb, chords=rng.randint(0, 2), n_trafo=rng.choice([0, 1, 1]), loads=False, sgens=False,
-                        n_trafo3w=0, oos=0.0, line_params=rng.random() < 0.5, shuffle_index=rng.random() < 0.4)
+    n_tr = rng.choice([0, 1, 1])
+    n_t3 = 1 if (n_tr > 0 and rng.random() < t3w_p) else 0
+    net = nets.rand_net(rng, nb=nb, chords=rng.randint(0, 2), n_trafo=n_tr, loads=False, sgens=False,
+                        n_trafo3w=n_t3, oos=0.0, line_params=rng.random() < 0.5, shuffle_index=rng.random() < 0.4)
+    if n_t3:
+        net.load.drop(net.load.index, inplace=True)      # rand_net puts a plain load on the 10 kV side; ours come below
     buses = [int(b) for b in net.bus.index[net.bus.vn_kv == 20.0]]
     # a bus section coupled by a closed bus-bus switch (fused into one ppc bus)
     if rng.random() < fuse_p:
@@ -113,6 +117,10 @@ def gen_net(rng, rich=1.0, nb=None, fuse_p=0.25, two_eg_p=0.2, **kw):
             pp.create_load(net, b, p_mw=g8(rng, 1, 16), q_mvar=g8(rng, -4, 8), const_z_p_percent=cz, const_i_p_percent=ci,
                            const_z_q_percent=cz, const_i_q_percent=ci)
     add_gens(rng, net, buses, hot, n_max=kw.get("n_gen", 3))
+    if rng.random() < dcline_p and len(buses) >= 2:
+        a, b = rng.sample(buses, 2)
+        pp.create_dcline(net, a, b, p_mw=g8(rng, 0, 8), loss_percent=rng.choice([0.0, 1.0, 2.0]), loss_mw=g8(rng, 0, 1),
+                         vm_from_pu=rng.choice([1.0, 1.01]), vm_to_pu=rng.choice([1.0, 0.99]), in_service=rng.random() < 0.9)
     return net
 
 
@@ -125,23 +133,31 @@ class Ext:
     pass
 
 
-def extract(net, gen_setpoints=None):
+def extract(net, gen_setpoints=None, dc=False):
     from pandapower.build_bus import _get_motor_pq, _get_symmetric_pq_of_unsymetric_element
     x = Ext()
     ppc = net._ppc
     internal = ppc["internal"]
     lookup = net._pd2ppc_lookups["bus"]
     bus = ppc["bus"]
-    V = internal["V"]
-    nbi = len(V)
-    Ybus = internal["Ybus"]
-    x.nb = nbi
     x.base = float(ppc["baseMVA"])
-    x.V = V
-    x.vs = [float(abs(v)) for v in V]
-    S = V * np.conj(Ybus @ V)
-    x.ss = [complex(s) for s in S]
-    x.vdl = bool(net._options["voltage_depend_loads"])
+    if dc:
+        nbi = internal["bus"].shape[0]
+        x.nb = nbi
+        x.V = None
+        x.vs = [float(bus[k, VM]) for k in range(nbi)]       # what _get_shunt_results reads
+        x.ss = [0j] * nbi
+        x.vdl = False                                         # results_bus.py:418 "voltage_depend_loads and ac"
+    else:
+        V = internal["V"]
+        nbi = len(V)
+        Ybus = internal["Ybus"]
+        x.nb = nbi
+        x.V = V
+        x.vs = [float(abs(v)) for v in V]
+        S = V * np.conj(Ybus @ V)
+        x.ss = [complex(s) for s in S]
+        x.vdl = bool(net._options["voltage_depend_loads"])
     ise = net._is_elements
     x.lookup = lookup
 
@@ -194,17 +210,33 @@ def extract(net, gen_setpoints=None):
     x.gens = []
     order = getattr(net, "_gen_order", {})
     owner = {}
+    ndc = 2 * len(net.dcline) if len(net.dcline) and len(ise.get("gen", [])) > len(net.gen) else 0   # aux gens of dclines, removed after the run
     for el, (f, t_) in order.items():
         tabn = el
-        idxs = list(net[tabn].index[ise[el]]) if el in ("ext_grid", "gen", "xward") else []
+        if el == "gen":
+            m = ise["gen"]
+            idxs = list(net.gen.index[m[:len(net.gen)]])
+            # the auxiliary dcline gens were appended to net.gen for the run: (to-gen, from-gen) per dcline
+            for j in range(len(net.gen), len(m)):
+                if m[j]:
+                    idxs.append(("dcline", j - len(net.gen)))
+        else:
+            idxs = list(net[tabn].index[ise[el]]) if el in ("ext_grid", "xward") else []
         for j, r in enumerate(range(f, t_)):
-            owner[r] = (tabn, int(idxs[j]) if j < len(idxs) else -1)
+            owner[r] = (tabn, idxs[j] if j < len(idxs) else -1)
     x.gen_owner = owner
     aux = net._pd2ppc_lookups.get("aux", {}).get("xward", [])
     for r in range(g.shape[0]):
         tabn, idx = owner.get(r, ("?", -1))
         if tabn == "ext_grid":
             pbus = int(net.ext_grid.bus.at[idx]); pg0 = 0.0
+        elif tabn == "gen" and isinstance(idx, tuple):
+            # aux gen of dcline d: even position = gen at to_bus, odd = gen at from_bus (results_gen._get_dcline_results);
+            # PV rows keep PG, so the solved value is the setpoint
+            d, odd = divmod(idx[1], 2)
+            di = net.dcline.index[d]
+            pbus = int(net.dcline.from_bus.at[di] if odd else net.dcline.to_bus.at[di]); pg0 = float(g[r, PG]); idx = -1 - idx[1]
+            tabn = "dcline_gen"
         elif tabn == "gen":
             pbus = int(net.gen.bus.at[idx]); pg0 = float(net.gen.p_mw.at[idx] * net.gen.scaling.at[idx])
         else:
@@ -213,6 +245,13 @@ def extract(net, gen_setpoints=None):
             pg0 = float(gen_setpoints[r])
         x.gens.append(dict(row=r, tab=tabn, idx=idx, pbus=pbus, bus=int(g[r, GEN_BUS]), pg=pg0, qmin=float(g[r, QMIN]),
                            qmax=float(g[r, QMAX]), w=float(g[r, SL_FAC]), on=bool(g[r, GEN_STATUS] > 0), ref=r in ref_gens))
+    # dcline terminal powers as stacked by results_gen.py:41-45
+    x.dclp, x.dclq = [], []
+    if len(net.dcline) and "res_dcline" in net and len(net.res_dcline):
+        for (fb, tb), (pf_, qf_, pt_, qt_) in zip(net.dcline[["from_bus", "to_bus"]].values,
+                                                  net.res_dcline[["p_from_mw", "q_from_mvar", "p_to_mw", "q_to_mvar"]].values):
+            x.dclp += [(int(fb), float(pf_)), (int(tb), float(pt_))]
+            x.dclq += [(int(fb), float(qf_)), (int(tb), float(qt_))]
     x.ref = [int(b) for b in internal["ref"]]
     x.bus_order = [(int(pb), kb(pb)) for pb in set(net.load["bus"])] if len(net.load) else []
     x.pbs = [int(b) for b in net.bus.index if kb(b) < nbi and net.bus.in_service.at[b] and not math.isnan(net.res_bus.vm_pu.at[b])]
@@ -261,9 +300,33 @@ def ref_term(x):
     return cq.lst([cq.nat(r) for r in x.ref])
 
 
+def run_dc_term(x):
+    return "run_dc %s %s %s" % (net_term(x), vs_term(x), cq.nat(x.nb))
+
+
+def ybus_term(net, x):
+    """two-port rows of every ppci branch from the Yf / Yt actually used by the run, the bus shunt, the solved V (exact floats)"""
+    from pandapower.pypower.idx_brch import F_BUS as FB, T_BUS as TB
+    internal = net._ppc["internal"]
+    Yf, Yt, br = internal["Yf"].tocsr(), internal["Yt"].tocsr(), internal["branch"]
+    bus = internal["bus"]
+
+    def c(z):
+        return "(mkC %s %s)" % (cq.q(float(z.real), 40), cq.q(float(z.imag), 40))
+
+    rows = []
+    for r in range(br.shape[0]):
+        f, t = int(br[r, FB].real), int(br[r, TB].real)
+        rows.append("(mkBr %s %s %s %s %s %s)" % (cq.nat(f), cq.nat(t), c(Yf[r, f]), c(Yf[r, t]), c(Yt[r, f]), c(Yt[r, t])))
+    ysh = [c(complex(bus[k, GS], bus[k, BS]) / x.base) for k in range(x.nb)]
+    V = [c(v) for v in x.V]
+    return "run_ybus %s %s %s %s" % (cq.lst(rows), cq.lst(ysh), cq.lst(V), cq.nat(x.nb))
+
+
 def run_all_term(x):
-    return "run_all %s %s %s %s %s %s" % (net_term(x), ref_term(x), vs_term(x), ss_term(x), cq.nat(x.nb),
-                                          cq.lst([cq.nat(p) for p in x.pbs]))
+    dl = lambda l: cq.lst(["(%s, %s)" % (cq.nat(b), cq.q(v, 40)) for b, v in l])
+    return "run_all %s %s %s %s %s %s %s %s" % (net_term(x), ref_term(x), vs_term(x), ss_term(x), cq.nat(x.nb),
+                                                dl(getattr(x, "dclp", [])), dl(getattr(x, "dclq", [])), cq.lst([cq.nat(p) for p in x.pbs]))
 
 
 # ------------------------------------------------------------------ observations of the impl in the model's shape
@@ -315,8 +378,7 @@ def branch_flows_by_bus(net, x, include_xward_branch=True):
             return
         for b, p, q_ in zip(t[buscol].values, r[pcol].values, r[qcol].values):
             k = int(x.lookup[int(b)])
-            if not (math.isnan(p) or math.isnan(q_)):
-                F[k] = F.get(k, 0j) + complex(p, q_)
+            F[k] = F.get(k, 0j) + complex(_z(p), _z(q_))
 
     add("from_bus", "p_from_mw", "q_from_mvar", "line")
     add("to_bus", "p_to_mw", "q_to_mvar", "line")
@@ -345,14 +407,20 @@ def element_sums_by_bus(net, x, by="ppc"):
         r = net["res_" + tab]
         for b, p, q_ in zip(t.bus.values, r.p_mw.values, r.q_mvar.values):
             k = int(x.lookup[int(b)]) if by == "ppc" else int(b)
-            E[k] = E.get(k, 0j) + sg * complex(p, q_)
+            E[k] = E.get(k, 0j) + complex(sg * _z(p), sg * _z(q_))
     if len(net.dcline):
         for (fb, tb), (pf, qf, pt, qt) in zip(net.dcline[["from_bus", "to_bus"]].values,
                                               net.res_dcline[["p_from_mw", "q_from_mvar", "p_to_mw", "q_to_mvar"]].values):
             for b, p, q_ in ((fb, pf, qf), (tb, pt, qt)):
                 k = int(x.lookup[int(b)]) if by == "ppc" else int(b)
-                E[k] = E.get(k, 0j) + complex(p, q_)
+                E[k] = E.get(k, 0j) + complex(_z(p), _z(q_))
     return E
+
+
+def _z(v):
+    """NaN (q columns of a DC power flow, elements at unsupplied buses) counts as 0 in the sums"""
+    v = float(v)
+    return 0.0 if math.isnan(v) else v
 
 
 # ------------------------------------------------------------------ python re-implementation of the guards (classification)
